@@ -132,6 +132,17 @@ CHECKS = {
          "TOKEN FOR TOKEN with the library's Doc for --help at every command level on every run. Not a theorem: one "
          "definition-list entry per non-duplicate item inside the writer, and the usage-line content (oracle / differential only).",
          "4/C12", "Rocq proof (item list = visible leaves; block order) + token-exact differential of the help Doc + AST oracle"),
+ "C16": ("proof", "PARTIAL. Theorems in coq/Props/C16.v. Manpage, for EVERY document/help text/name/metavariable: no output line begins "
+         "with `.` or `'` unless bpaf wrote that byte as the start of a request (invariant `really at line start => at_line_start` "
+         "over escape/Roff builder/render_roff, output bytes carry their origin); user text round-trips through a reader of roff "
+         "text that rejects every escape bpaf does not write (Special, SpecialNoNewline, Spaces -- the last one only after the "
+         "fix: commit 599aa89). HTML: the tags a reader sees in the bytes are exactly the renderer's own (user text never opens, "
+         "closes or breaks a tag); for documents with balanced blocks the tags are well nested (balancedness of bpaf's documents "
+         "is checked on every document, not proved). Completeness: section items = visible leaves (C12 theorem). Model/Docs.v "
+         "(extract_sections, collect_html, render_manpage document, render_html, Roff/escape/render_roff) is compared with the "
+         "library on every run: documents token for token (cfg(bpaf_verif) capture hook), html and manpage byte for byte, plus "
+         "explicit balanced/unbalanced token lists through the renderer hooks. render_markdown is not modelled (oracle only).",
+         "4/C16", "Rocq proof (roff control-line invariant, escape round-trips, HTML tag reader, nesting) + byte-exact differential of html/manpage + independent lexers"),
 }
 
 NA_REASON = "check not built yet in this revision (machinery under construction; see DESIGN.md section 7 staging)"
